@@ -199,10 +199,11 @@ inductive MSt where
   | direct (n m : Nat) (g : SummaryGen)
   | engine (n m : Nat) (rf : Rat) (s : EngState)
 
-/-- Would the code panic on this event (unknown key, or zero cost of investment)? -/
-def evPanics (n m : Nat) : Ev → Bool
-  | .position i p => decide (n ≤ i) || p.closed.panics
-  | .balance a _ => decide (m ≤ a)
+/-- Would the code panic on this event (unknown key, or zero cost of investment)? The predicate lives in
+the model (`KeyedSummary.Ev.panics`; `Props.C16K.ev_panics_iff`). Model mode runs the model's checked
+steps (`stepChecked` / `runChecked`: `none` = `panic`); spec mode uses the same predicate — its `panic`
+line is a copy, not an independent oracle. -/
+abbrev evPanics (n m : Nat) : Ev → Bool := Ev.panics n m
 
 def model : Drv MSt where
   init := .none
@@ -215,31 +216,34 @@ def model : Drv MSt where
     | some (.pos i p) =>
       match s with
       | .direct n m g =>
-        if evPanics n m (.position i p) then (s, ["panic"]) else
-        let g' := g.step root (.position i p)
-        (.direct n m g', ["end " ++ toString g'.timeEngineNow])
+        match g.stepChecked root (.position i p) with
+        | none => (s, ["panic"])
+        | some g' => (.direct n m g', ["end " ++ toString g'.timeEngineNow])
       | _ => (s, ["bad-op"])
     | some (.fills i exits) =>
       match s with
       | .engine n m rf e =>
-        if exits.any (fun p => evPanics n m (.position i p)) then (s, ["panic"]) else
-        (.engine n m rf (e.run root (exits.map (Ev.position i))), exits.map (fmtClosed i))
+        match e.runChecked root (exits.map (Ev.position i)) with
+        | none => (s, ["panic"])
+        | some e' => (.engine n m rf e', exits.map (fmtClosed i))
       | _ => (s, ["bad-op"])
     | some (.bal a b) =>
       match s with
       | .none => (s, ["bad-op"])
       | .direct n m g =>
-        if evPanics n m (.balance a b) then (s, ["panic"]) else
-        let g' := g.step root (.balance a b)
-        (.direct n m g', ["end " ++ toString g'.timeEngineNow])
+        match g.stepChecked root (.balance a b) with
+        | none => (s, ["panic"])
+        | some g' => (.direct n m g', ["end " ++ toString g'.timeEngineNow])
       | .engine n m rf e =>
-        if evPanics n m (.balance a b) then (s, ["panic"]) else
-        (.engine n m rf (e.step root (.balance a b)), [])
+        match e.stepChecked root (.balance a b) with
+        | none => (s, ["panic"])
+        | some e' => (.engine n m rf e', [])
     | some (.snap items) =>
       match s with
       | .engine n m rf e =>
-        if items.any (fun x => evPanics n m (.balance x.1 x.2)) then (s, ["panic"]) else
-        (.engine n m rf (e.run root (items.map fun x => Ev.balance x.1 x.2)), [])
+        match e.runChecked root (items.map fun x => Ev.balance x.1 x.2) with
+        | none => (s, ["panic"])
+        | some e' => (.engine n m rf e', [])
       | _ => (s, ["bad-op"])
     | some (.gen iv mutating) =>
       match s with
